@@ -543,10 +543,6 @@ package commands
 //@   props C14
 //@   modifies fresh, ghost listcount[o]
 //@   ensures listcount(o) == old(listcount(o)) + 1
-//@ func (*github.com/git-lfs/git-lfs/v3/lfs.Pointer).Encode
-//@   assumed
-//@   props C14
-//@   modifies all
 
 // A content-less smudge request (the retrieval of a delayed blob) is answered
 // from the pointer remembered for that path; a request that carries content is
@@ -655,6 +651,10 @@ package commands
 //@ func smudge
 //@   props C08 C14
 //@   ensures @C14 smudgecalls(0) > old(smudgecalls(0)) ==> result1 == nil
+// ... and when the content is not asked for at all (GIT_LFS_SKIP_SMUDGE, or a
+// path outside lfs.fetchinclude/exclude) - or cannot be had, a skipped download
+// error - what is encoded to the output is the pointer that was read.
+//@   at call (*lfs.Pointer).Encode:* assert @C14 arg0__ == ptr && arg1__ == to && lastdecodeerr(0) == nil
 //@   requires @inv gf != nil && to != nil && from != nil && !dyntype(to, "*os.File") && !is_tee(to)
 //@   at call tools.Spool:1 assert arg0__ == to && rrest(arg1__) == old(rrest(from)) && wbuf(to) == old(wbuf(to))
 //@   at call errors.NewNotAPointerError:1 assert wbuf(to) == scat(old(wbuf(to)), old(rrest(from))) && len(old(rrest(from))) != 0
